@@ -33,12 +33,12 @@ import (
 const base = "go.lstv.dev/util/internal/vsim/"
 
 var subst = map[string][2]string{
-	"sync":        {base + "vsync", "sync"},
-	"sync/atomic": {base + "vatomic", "atomic"},
-	"math/rand":   {base + "vrand", "rand"},
+	"sync":         {base + "vsync", "sync"},
+	"sync/atomic":  {base + "vatomic", "atomic"},
+	"math/rand":    {base + "vrand", "rand"},
 	"math/rand/v2": {base + "vrand2", "rand"},
-	"time":        {base + "vtime", "time"},
-	"context":     {base + "vcontext", "context"},
+	"time":         {base + "vtime", "time"},
+	"context":      {base + "vcontext", "context"},
 }
 
 type edit struct {
@@ -48,19 +48,20 @@ type edit struct {
 }
 
 type fileCtx struct {
-	path    string
-	rel     string
-	fset    *token.FileSet
-	f       *ast.File
-	src     []byte
-	edits   []edit
-	need    map[string]bool // extra imports needed: vchan, vsched, vrace
-	sync    string          // local names of substituted imports ("" if absent)
-	atomic  string
-	skip    map[ast.Node]bool // nodes whose generic edit is suppressed
-	selTemp int
+	path             string
+	rel              string
+	fset             *token.FileSet
+	f                *ast.File
+	src              []byte
+	edits            []edit
+	need             map[string]bool // extra imports needed: vchan, vsched, vrace
+	sync             string          // local names of substituted imports ("" if absent)
+	atomic           string
+	skip             map[ast.Node]bool // nodes whose generic edit is suppressed
+	selTemp          int
 	runtimeName      string // local name of the "runtime" import
 	goschedRewritten bool
+	imports          map[string]string // local name -> import path
 }
 
 func (c *fileCtx) off(p token.Pos) int { return c.fset.Position(p).Offset }
@@ -81,19 +82,108 @@ type typeDecl struct {
 }
 
 type pkgCtx struct {
-	dir      string
-	name     string
-	files    []*fileCtx
-	vars     map[string]bool        // package-level var names
-	specs    map[interface{}]bool   // their ValueSpecs (ast.Object.Decl)
-	syncLike map[string]bool        // vars that are synchronisation objects themselves
-	instr    map[string]int         // instrumented var -> id
-	resetFns []string
-	chans    map[string]bool        // names declared somewhere in the package with a channel type
-	types    map[string]typeDecl    // type declarations of the package
-	alias    map[interface{}]string // receiver field of a singleton type's method -> the package-level variable
-	ptrDecl  map[interface{}]bool   // parameter / receiver fields declared with a pointer type
-	methods  map[string]bool        // method names declared in the package (x.m without a call is a method value, not a field)
+	dir       string
+	name      string
+	files     []*fileCtx
+	vars      map[string]bool      // package-level var names
+	specs     map[interface{}]bool // their ValueSpecs (ast.Object.Decl)
+	syncLike  map[string]bool      // vars that are synchronisation objects themselves
+	instr     map[string]int       // instrumented var -> id
+	resetFns  []string
+	chans     map[string]bool        // names declared somewhere in the package with a channel type
+	types     map[string]typeDecl    // type declarations of the package
+	alias     map[interface{}]string // receiver field of a singleton type's method -> the package-level variable
+	ptrDecl   map[interface{}]bool   // parameter / receiver fields declared with a pointer type
+	methods   map[string]bool        // method names declared in the package (x.m without a call is a method value, not a field)
+	unsafeObj map[string]bool        // package-level variables holding a standard-library object documented as not safe for concurrent use
+}
+
+// Standard-library objects with internal state and no locking of their own: a method call on
+// one (or handing it to a function) is a write to it as far as the race check is concerned.
+// Only types whose documentation or source leaves no doubt are listed.
+var unsafeTypes = map[string]map[string]bool{
+	"bufio":          {"Reader": true, "Writer": true, "Scanner": true, "ReadWriter": true},
+	"bytes":          {"Buffer": true, "Reader": true},
+	"strings":        {"Builder": true, "Reader": true},
+	"hash":           {"Hash": true, "Hash32": true, "Hash64": true},
+	"hash/maphash":   {"Hash": true},
+	"encoding/json":  {"Decoder": true, "Encoder": true},
+	"encoding/csv":   {"Reader": true, "Writer": true},
+	"encoding/xml":   {"Decoder": true, "Encoder": true},
+	"container/list": {"List": true},
+	"container/ring": {"Ring": true},
+	"text/tabwriter": {"Writer": true},
+	"compress/gzip":  {"Reader": true, "Writer": true},
+	"compress/flate": {"Writer": true},
+	"compress/zlib":  {"Writer": true},
+	"crypto/cipher":  {"Stream": true, "StreamReader": true, "StreamWriter": true},
+	"text/scanner":   {"Scanner": true},
+	"archive/tar":    {"Reader": true, "Writer": true},
+	"archive/zip":    {"Writer": true},
+	"mime/multipart": {"Reader": true, "Writer": true},
+}
+
+var unsafeCtors = map[string]map[string]bool{
+	"bufio":           {"NewReader": true, "NewReaderSize": true, "NewWriter": true, "NewWriterSize": true, "NewScanner": true, "NewReadWriter": true},
+	"bytes":           {"NewBuffer": true, "NewBufferString": true, "NewReader": true},
+	"strings":         {"NewReader": true},
+	"crypto/md5":      {"New": true},
+	"crypto/sha1":     {"New": true},
+	"crypto/sha256":   {"New": true, "New224": true},
+	"crypto/sha512":   {"New": true, "New384": true, "New512_224": true, "New512_256": true},
+	"crypto/hmac":     {"New": true},
+	"hash/fnv":        {"New32": true, "New32a": true, "New64": true, "New64a": true, "New128": true, "New128a": true},
+	"hash/crc32":      {"New": true, "NewIEEE": true},
+	"hash/crc64":      {"New": true},
+	"hash/adler32":    {"New": true},
+	"encoding/json":   {"NewDecoder": true, "NewEncoder": true},
+	"encoding/csv":    {"NewReader": true, "NewWriter": true},
+	"encoding/xml":    {"NewDecoder": true, "NewEncoder": true},
+	"encoding/hex":    {"Dumper": true, "NewEncoder": true, "NewDecoder": true},
+	"encoding/base64": {"NewEncoder": true, "NewDecoder": true},
+	"container/list":  {"New": true},
+	"container/ring":  {"New": true},
+	"text/tabwriter":  {"NewWriter": true},
+	"compress/gzip":   {"NewReader": true, "NewWriter": true, "NewWriterLevel": true},
+	"compress/flate":  {"NewReader": true, "NewWriter": true},
+	"compress/zlib":   {"NewReader": true, "NewWriter": true},
+	"crypto/cipher":   {"NewCTR": true, "NewOFB": true, "NewCFBEncrypter": true, "NewCFBDecrypter": true},
+}
+
+// unsafeObjExpr: is e a type (pkg.T, *pkg.T) or a value (pkg.New...(...), &pkg.T{...},
+// pkg.T{...}, new(pkg.T)) of one of the listed kinds?
+func (fc *fileCtx) unsafeObjExpr(e ast.Expr) bool {
+	sel := func(x ast.Expr, table map[string]map[string]bool) bool {
+		s, ok := x.(*ast.SelectorExpr)
+		if !ok {
+			return false
+		}
+		id, ok := s.X.(*ast.Ident)
+		if !ok || id.Obj != nil {
+			return false
+		}
+		return table[fc.imports[id.Name]][s.Sel.Name]
+	}
+	switch x := e.(type) {
+	case nil:
+		return false
+	case *ast.StarExpr:
+		return fc.unsafeObjExpr(x.X)
+	case *ast.SelectorExpr:
+		return sel(x, unsafeTypes)
+	case *ast.UnaryExpr:
+		if x.Op == token.AND {
+			return fc.unsafeObjExpr(x.X)
+		}
+	case *ast.CompositeLit:
+		return x.Type != nil && sel(x.Type, unsafeTypes)
+	case *ast.CallExpr:
+		if id, ok := x.Fun.(*ast.Ident); ok && id.Name == "new" && id.Obj == nil && len(x.Args) == 1 {
+			return sel(x.Args[0], unsafeTypes)
+		}
+		return sel(x.Fun, unsafeCtors)
+	}
+	return false
 }
 
 var (
@@ -164,6 +254,7 @@ func main() {
 	// other exported functions of package uu that hand out IDs (func() ID, func(int) []ID,
 	// func(int) ID, func() []ID): an edited tree that grows a batch API is exercised through it too
 	sources, srcNames := "", ""
+	callbacks, cbNames := "", ""
 	needCtx := false
 	uuAlias := ""
 	for i, p := range pkgs {
@@ -176,6 +267,28 @@ func main() {
 				fd, ok := d.(*ast.FuncDecl)
 				if !ok || fd.Recv != nil || !fd.Name.IsExported() || fd.Name.Name == "RandomID" || fd.Type.TypeParams != nil {
 					continue
+				}
+				// an API that lends the generator to a callback: func X(f func(*rand.Rand)) [error]
+				if ps := fd.Type.Params; ps != nil && len(ps.List) == 1 && len(ps.List[0].Names) <= 1 {
+					if ft, ok := ps.List[0].Type.(*ast.FuncType); ok && ft.Params != nil && len(ft.Params.List) == 1 && len(ft.Params.List[0].Names) <= 1 && ft.Results == nil {
+						if st, ok := ft.Params.List[0].Type.(*ast.StarExpr); ok {
+							if se, ok := st.X.(*ast.SelectorExpr); ok && se.Sel.Name == "Rand" {
+								if id, ok := se.X.(*ast.Ident); ok && fc.imports[id.Name] == "math/rand" {
+									rs := fd.Type.Results
+									switch {
+									case rs == nil || len(rs.List) == 0:
+										callbacks += fmt.Sprintf("\tfunc(cb func(*rand.Rand)) { uu.%s(cb) },\n", fd.Name.Name)
+									case len(rs.List) == 1 && len(rs.List[0].Names) <= 1:
+										callbacks += fmt.Sprintf("\tfunc(cb func(*rand.Rand)) { _ = uu.%s(cb) },\n", fd.Name.Name)
+									default:
+										continue
+									}
+									cbNames += fmt.Sprintf("%q, ", "uu."+fd.Name.Name)
+									continue
+								}
+							}
+						}
+					}
 				}
 				res := fd.Type.Results
 				if res == nil || len(res.List) < 1 || len(res.List) > 2 || len(res.List[0].Names) > 1 {
@@ -250,6 +363,7 @@ func main() {
 	if needCtx {
 		fullImports += "\tvcontext \"" + base + "vcontext\"\n"
 	}
+	fullImports = "\t\"math/rand\"\n\n" + fullImports
 	if resetOnly {
 		src := fmt.Sprintf("// Code generated by vsim rewrite. DO NOT EDIT.\n\npackage %s\n\nimport (\n%s)\n\n// resetPackages re-initialises the package-level state of the packages under test.\nfunc resetPackages() {\n%s}\n", filepath.Base(filepath.Dir(out)), imports, calls)
 		if err := os.WriteFile(out, []byte(src), 0o644); err != nil {
@@ -284,7 +398,14 @@ var ExtraSources = []func(n int) []uu.ID{
 
 // ExtraSourceNames names them.
 var ExtraSourceNames = []string{%s}
-`, fullImports, calls, len(i2off) == 0, usesSync, strings.Join(unsupported, "; "), note, names, sources, srcNames)
+
+// ExtraCallbacks are exported functions of package uu that lend a generator to a callback.
+var ExtraCallbacks = []func(cb func(*rand.Rand)){
+%s}
+
+// ExtraCallbackNames names them.
+var ExtraCallbackNames = []string{%s}
+`, fullImports, calls, len(i2off) == 0, usesSync, strings.Join(unsupported, "; "), note, names, sources, srcNames, callbacks, cbNames)
 	if err := os.WriteFile(out, []byte(src), 0o644); err != nil {
 		die(err)
 	}
@@ -319,6 +440,7 @@ func loadPkg(root, dir string) *pkgCtx {
 		}
 		p.name = f.Name.Name
 		fc := &fileCtx{path: path, rel: filepath.Join(dir, name), fset: fset, f: f, src: src, need: map[string]bool{}, skip: map[ast.Node]bool{}}
+		fc.imports = map[string]string{}
 		for _, imp := range f.Imports {
 			ip, _ := strconv.Unquote(imp.Path.Value)
 			local := ""
@@ -327,6 +449,11 @@ func loadPkg(root, dir string) *pkgCtx {
 			}
 			if imp.Name != nil {
 				local = imp.Name.Name
+			}
+			if imp.Name != nil {
+				fc.imports[imp.Name.Name] = ip
+			} else {
+				fc.imports[ip[strings.LastIndex(ip, "/")+1:]] = ip
 			}
 			switch ip {
 			case "runtime":
@@ -826,6 +953,12 @@ func (p *pkgCtx) classify() {
 					if like {
 						p.syncLike[n.Name] = true
 					}
+					if fc.unsafeObjExpr(vs.Type) || (i < len(vs.Values) && len(vs.Values) == len(vs.Names) && fc.unsafeObjExpr(vs.Values[i])) {
+						if p.unsafeObj == nil {
+							p.unsafeObj = map[string]bool{}
+						}
+						p.unsafeObj[n.Name] = true
+					}
 					if i < len(vs.Values) {
 						if call, ok := vs.Values[i].(*ast.CallExpr); ok {
 							if id, ok := call.Fun.(*ast.Ident); ok {
@@ -900,6 +1033,10 @@ func (p *pkgCtx) classify() {
 				return true
 			})
 		}
+	}
+	for n := range p.unsafeObj {
+		// using such an object changes it, whether or not the variable is ever assigned
+		written[n] = true
 	}
 	var names []string
 	for n := range written {
@@ -1020,6 +1157,14 @@ func (a *accs) expr(e ast.Node) {
 					}
 					return false
 				}
+				// r.M(...) on a pointer parameter r whose type lives elsewhere (*rand.Rand): M is a
+				// method, not a field to take the address of
+				if _, ok := a.ptrField(s); ok {
+					for _, arg := range x.Args {
+						a.expr(arg)
+					}
+					return false
+				}
 				// a method called on a field reached through a pointer: not observed (it may be a
 				// lock, a channel, a generator with its own model)
 				if _, ok := a.ptrField(s.X); ok {
@@ -1031,7 +1176,7 @@ func (a *accs) expr(e ast.Node) {
 				// the receiver of a method call is read (unless it is a lock)
 				if path, ok := a.p.varPath(s.X); ok {
 					if !a.p.syncLike[path] {
-						a.note(s.X, false)
+						a.note(s.X, a.p.unsafeObj[path])
 					}
 					a.indices(s.X)
 					for _, arg := range x.Args {
@@ -1056,7 +1201,9 @@ func (a *accs) expr(e ast.Node) {
 			}
 			return false
 		case *ast.Ident:
-			a.note(x, false)
+			// a stateful standard-library object handed to somebody (io.ReadFull(r, b),
+			// fmt.Fprintf(w, ...)) is going to be used, which changes it
+			a.note(x, a.p.unsafeObj[x.Name] && a.p.isPkgVar(x))
 		}
 		return true
 	})
@@ -1174,14 +1321,37 @@ func (a *accs) shallow(s ast.Stmt) {
 
 // rewriting ------------------------------------------------------------------------
 
+// onlyModelledSync: every sync.X the file mentions has a stand-in.
+func (fc *fileCtx) onlyModelledSync() bool {
+	if fc.sync == "" {
+		return false
+	}
+	have := map[string]bool{"Mutex": true, "RWMutex": true, "Once": true, "WaitGroup": true, "Cond": true, "NewCond": true, "Locker": true, "OnceFunc": true, "OnceValue": true, "OnceValues": true, "Pool": true, "Map": true}
+	ok := true
+	ast.Inspect(fc.f, func(n ast.Node) bool {
+		if s, isSel := n.(*ast.SelectorExpr); isSel {
+			if id, isID := s.X.(*ast.Ident); isID && id.Name == fc.sync && id.Obj == nil && !have[s.Sel.Name] {
+				ok = false
+			}
+		}
+		return ok
+	})
+	return ok
+}
+
 func (p *pkgCtx) rewriteFile(fc *fileCtx) {
 	f := fc.f
 	// 1. imports
 	for _, imp := range f.Imports {
-		if resetOnly {
-			break
-		}
 		ip, _ := strconv.Unquote(imp.Path.Value)
+		if resetOnly && (ip != "sync" || !fc.onlyModelledSync()) {
+			// single-threaded checks (C17, C20) run the real packages; only "sync" is swapped,
+			// because the real sync.Pool hands out per-P cached items and drops them at
+			// garbage collections: a violation that depends on what a Get returns would not
+			// replay. Outside a simulated run the stand-ins are plain single-threaded objects
+			// (Pool: a LIFO stack).
+			continue
+		}
 		s, ok := subst[ip]
 		if !ok {
 			continue
@@ -1449,7 +1619,7 @@ func (p *pkgCtx) rewriteConcurrency(fc *fileCtx) {
 				// code believes about the number of processors and goroutines
 				if id, ok := se.X.(*ast.Ident); ok && id.Obj == nil && id.Name == fc.runtimeName && fc.runtimeName != "" {
 					switch se.Sel.Name {
-					case "Gosched", "GOMAXPROCS", "NumCPU", "NumGoroutine":
+					case "Gosched", "GOMAXPROCS", "NumCPU", "NumGoroutine", "Stack":
 						fc.need["vsched"] = true
 						fc.repl(se.Pos(), se.End(), "vsched."+se.Sel.Name)
 						fc.goschedRewritten = true
